@@ -25,6 +25,7 @@ RULE = (
     "Non-trivial = a snapshot comparison around a call that received an array / a history with at least one fit between two evaluations; distinct by (kind, spec or getter, sequence)."
 )
 ASSUMPTIONS = [
+    "state that existed before a call must be unchanged after it; attributes created by the call (lazy caches) are counted, not judged (they are not 'the model's parameters')",
     "deep snapshot covers instance attributes recursively, dict/list/set/ndarray contents, function defaults and closure cells, and class-level container attributes of virocon classes",
     "functions / classes / modules themselves are treated as immutable nodes",
 ]
@@ -171,7 +172,10 @@ def _post(label, root_of):
             return
         root = root_of(call)
         after = snap(root)
-        same = after == call.pre["snap"]
+        new_attrs = []
+        same = not changed(call.pre["snap"], after, new_attrs)
+        if new_attrs:
+            c.count("c19.new-attributes-after-call(not-judged)", len(new_attrs))
         c.check("c19.model-unchanged", same, f"{label}: the object's state differs after the call", entry=label, diff=_diff(call.pre["snap"], after) if not same else None)
         for live, before in call.pre["arrays"]:
             if isinstance(live, np.ndarray):
@@ -181,6 +185,33 @@ def _post(label, root_of):
             c.check("c19.arrays-unchanged", bool(ok), f"{label}: a caller's array was modified", entry=label)
 
     return post
+
+
+def changed(before, after, new_attrs=None):
+    """True if any state that existed BEFORE the call differs afterwards.  Attributes that did not exist before
+    (lazily created caches) are not 'the model's parameters': they are collected in new_attrs, not judged - a stale
+    cache is caught by the repeat-evaluation and history clauses, and by the owning property's check."""
+    if type(before) != type(after):
+        return True
+    if isinstance(before, tuple) and len(before) == 4 and before and before[0] == "object" and isinstance(after, tuple) and len(after) == 4 and after[0] == "object":
+        if before[1] != after[1] or before[3] != after[3]:
+            return True
+        a_attrs = dict(after[2])
+        for k, v in before[2]:
+            if k not in a_attrs:
+                return True
+            if changed(v, a_attrs[k], new_attrs):
+                return True
+        if new_attrs is not None:
+            for k in a_attrs:
+                if k not in dict(before[2]):
+                    new_attrs.append(f"{before[1]}.{k}")
+        return False
+    if isinstance(before, tuple):
+        if len(before) != len(after):
+            return True
+        return any(changed(x, y, new_attrs) for x, y in zip(before, after))
+    return before != after
 
 
 def _diff(a, b, path="", out=None, limit=4):
@@ -484,7 +515,7 @@ def _history(case, ctx):
             n_fits += 1
             ctx.check("c19.history-independent", _params(A2) == refA, "a second model built from a fresh description of the same getter does not reproduce the first fit", sequence=case["seq"], getter=gA, diff=_diff(refA, _params(A2)))
         after = snap(A)
-        ctx.check("c19.history-model-unchanged", after == snapA, f"model A changed state during '{op}' on another object", sequence=case["seq"], op=op, diff=_diff(snapA, after) if after != snapA else None)
+        ctx.check("c19.history-model-unchanged", not changed(snapA, after), f"model A changed state during '{op}' on another object", sequence=case["seq"], op=op, diff=_diff(snapA, after) if after != snapA else None)
     ctx.nontrivial = n_fits > 0
     ctx.sample = {"kind": "history", "getterA": gA, "getterB": gB, "sequence": case["seq"]}
 
@@ -509,7 +540,7 @@ def _idgraph(case, ctx):
     before = snap(mb)
     _fit(ma, a[1], _data_for(g, rng))
     after = snap(mb)
-    ctx.check("c19.fit-leaves-other-model-unchanged", before == after, f"fitting a model from {g}() changes another model built from a fresh description", diff=_diff(before, after) if before != after else None)
+    ctx.check("c19.fit-leaves-other-model-unchanged", not changed(before, after), f"fitting a model from {g}() changes another model built from a fresh description", diff=_diff(before, after) if before != after else None)
     ctx.nontrivial = True
     ctx.sample = {"kind": "idgraph", "getter": g, "mutable_nodes": len(na)}
 
@@ -538,7 +569,7 @@ def _template(case, ctx):
         ctx.count("c19.template-fit-failed")
         ctx.notes["fit_error"] = str(e)[:100]
     after = snap(template)
-    ctx.check("c19.template-unchanged", before == after and dict(template.parameters) == {k: v for k, v in start.items()}, "ConditionalDistribution.fit altered its template's own parameters", family=fam, start=start, now=dict(template.parameters))
+    ctx.check("c19.template-unchanged", not changed(before, after) and dict(template.parameters) == {k: v for k, v in start.items()}, "ConditionalDistribution.fit altered its template's own parameters", family=fam, start=start, now=dict(template.parameters))
     per = getattr(model.distributions[1], "distributions_per_interval", [])
     ctx.check("c19.interval-distributions-are-copies", all(d is not template for d in per) and len({id(d) for d in per}) == len(per), "per-interval distributions are not independent copies of the template")
     ctx.nontrivial = len(per) > 0
